@@ -193,10 +193,11 @@ def r20_d(ctx):
                 if isinstance(n, ast.Call) and isinstance(n.func, ast.Attribute) and n.func.attr in mutators \
                         and isinstance(n.func.value, ast.Attribute) and n.func.value.attr == q:
                     site = n
+                    from .model import resolve_locals
                     ok = (name == '__next__' and n.func.attr == 'append' and len(n.args) == 1
                           and any(isinstance(x, ast.Call) and isinstance(x.func, ast.Name) and x.func.id == 'next'
                                   and x.args and isinstance(x.args[0], ast.Attribute) and x.args[0].attr == m.iter_field
-                                  for x in ast.walk(n.args[0])))
+                                  for x in ast.walk(resolve_locals(fd.node, n.args[0]))))
                 elif isinstance(n, (ast.Assign, ast.AugAssign, ast.Delete)):
                     tg = n.targets if isinstance(n, (ast.Assign, ast.Delete)) else [n.target]
                     for t in tg:
